@@ -346,6 +346,10 @@ func cmdCheck(args []string) {
 	if !*noRAC {
 		byProg := map[*Program][]string{}
 		for _, f := range fucs {
+			if f.p.Pkg.Types.Name() == "main" {
+				// command functions end the process (os.Exit): exercised as processes by the CLI stand-in instead
+				continue
+			}
 			byProg[f.p] = append(byProg[f.p], f.key)
 		}
 		var wg sync.WaitGroup
@@ -384,7 +388,9 @@ func cmdCheck(args []string) {
 		}
 		wg.Wait()
 		for _, f := range fucs {
-			f.rac = racRes[f.p][f.key]
+			if rr := racRes[f.p]; rr != nil {
+				f.rac = rr[f.key]
+			}
 		}
 	}
 	// 3. verdicts
